@@ -67,6 +67,7 @@ SIMPLER_CLASS = {
     "SubVertex": "Vertex",
     "FalsyVertex": "Vertex",
     "SlottedVertex": "Vertex",
+    "HandoverVertex": "Vertex",
     "SubUniverse": "Universe",
     "FalsyUniverse": "Universe",
     "RenamedDirected": "DirectedEdge",
